@@ -1,7 +1,15 @@
-// C21 / C06: the real header-only TermNames (+ ScopedVector, libstdc++ unordered_map / vector / string) driven by a
-// symbolic history of operations and compared with a reference scoped map.
+// C21 / C06: the real TermNames + ScopedVector code (tryInsert, pushScope, popScope, shrinkTo, eraseTermName, the
+// queries) on every history of <= NOPS operations over 2 names x 2 terms, scoped and global mode, against a reference
+// scoped map. The two std::unordered_map members are array models behind their member functions (the nodes are real
+// libstdc++ node objects, so iterators and it->second work); std::vector and std::string stay real libstdc++ code with
+// bounded char_traits primitives.
 #include "verif.h"
 #include "common/TermNames.h"
+#ifdef WITH_C06
+#include "unsatcores/UnsatCoreBuilder.h"
+#include "api/MainSolver.h"
+#endif
+#include <new>
 using namespace opensmt;
 
 #ifndef NOPS
@@ -10,7 +18,7 @@ using namespace opensmt;
 #define NN 2        // names "a", "b"
 #define NT 2        // terms 1, 2
 
-// ---- bounded primitives of std::string: every string in these harnesses fits the 15-character SSO buffer
+// ---- bounded primitives of std::string: every string here has one character (SSO buffer, no heap)
 extern "C" char * stub_ct_copy(char * d, const char * s, size_t n) {
     VASSERT(n <= 3, "bound: strings of at most 2 characters");
     for (size_t i = 0; i < 3; i++) if (i < n) d[i] = s[i];
@@ -29,136 +37,232 @@ extern "C" size_t stub_ct_length(const char * s) {
 extern "C" char * stub_str_create(std::string *, size_t &, size_t) { VASSERT(false, "bound: no heap-allocated string (SSO only)"); return nullptr; }
 extern "C" void stub_str_destroy(std::string *, size_t) { VASSERT(false, "bound: no heap-allocated string to free (SSO only)"); }
 
+// ---- std::string special members and comparison, for strings of at most one character held in the SSO buffer
+static void sso_take(std::string * d, std::string const * s) {
+    VASSERT(s->_M_string_length <= 1 && s->_M_dataplus._M_p == s->_M_local_buf, "bound: one-character strings in the SSO buffer");
+    d->_M_dataplus._M_p = d->_M_local_buf;
+    d->_M_local_buf[0] = s->_M_local_buf[0];
+    d->_M_local_buf[1] = 0;
+    d->_M_string_length = s->_M_string_length;
+}
+static void sso_clear(std::string * s) { s->_M_string_length = 0; s->_M_local_buf[0] = 0; }
+extern "C" void stub_str_copy_ctor(std::string * self, std::string const & o) { sso_take(self, &o); }
+extern "C" void stub_str_move_ctor(std::string * self, std::string & o) { sso_take(self, &o); sso_clear(&o); }
+extern "C" std::string & stub_str_move_assign(std::string * self, std::string & o) { if (self != &o) { sso_take(self, &o); sso_clear(&o); } return *self; }
+extern "C" std::string & stub_str_copy_assign(std::string * self, std::string const & o) { if (self != &o) sso_take(self, &o); return *self; }
+extern "C" void stub_str_dtor(std::string * self) { VASSERT(self->_M_dataplus._M_p == self->_M_local_buf, "bound: no heap-allocated string is destroyed"); }
+extern "C" bool stub_str_eq(std::string const & a, std::string const & b) {
+    if (a._M_string_length != b._M_string_length) return false;
+    VASSERT(a._M_string_length <= 1, "bound: one-character strings");
+    return a._M_string_length == 0 || a._M_dataplus._M_p[0] == b._M_dataplus._M_p[0];
+}
+// std::find over a vector<std::string> (libstdc++'s __find_if is unrolled four-fold; the vectors here hold <= 2 names)
+using VIt = std::vector<std::string>::iterator;
+extern "C" VIt stub_find_if(VIt first, VIt last, __gnu_cxx::__ops::_Iter_equals_val<std::string const> pred, std::random_access_iterator_tag) {
+    for (int k = 0; k < 3; k++) {
+        if (first == last) return last;
+        if (stub_str_eq(*first, pred._M_value)) return first;
+        ++first;
+    }
+    VASSERT(false, "bound: at most 2 names per term");
+    return last;
+}
+
 static bool global_mode;
 extern "C" bool stub_decl_global(SMTConfig const *) { return global_mode; }
 
-// ---- reference: a scoped map name -> term
+// ---------------------------------------------------------------- array models of the two hash maps
+using NMap = std::unordered_map<TermName, PTRef>;
+using TMap = std::unordered_map<PTRef, std::vector<TermName>, PTRefHash>;
+using NNode = std::remove_pointer_t<decltype(std::declval<NMap::iterator>()._M_cur)>;
+using TNode = std::remove_pointer_t<decltype(std::declval<TMap::iterator>()._M_cur)>;
+// one slot per possible key (names 'a','b'; terms 1,2); the value lives in a real node object
+static NNode nnodes[NN]; static bool npresent[NN];
+static TNode tnodes[NT]; static bool tpresent[NT];
+static bool foreign_key;
+static int nidx(TermName const & k) { char c = k.data()[0]; if (c == 'a') return 0; if (c == 'b') return 1; foreign_key = true; return 0; }
+static int tidx(PTRef t) { if (t.x == 1) return 0; if (t.x == 2) return 1; return -1; }     // other terms are never named
+
+extern "C" NMap::iterator stub_n_find(NMap *, TermName const & k) { int i = nidx(k); return NMap::iterator(npresent[i] ? &nnodes[i] : nullptr); }
+extern "C" NMap::iterator stub_n_end(NMap *) { return NMap::iterator(nullptr); }
+extern "C" bool stub_n_contains(NMap const *, TermName const & k) { return npresent[nidx(k)]; }
+extern "C" std::pair<NMap::iterator, bool> stub_n_try_emplace(NMap *, TermName const & k, PTRef & v) {
+    int i = nidx(k);
+    if (npresent[i]) return {NMap::iterator(&nnodes[i]), false};
+    ::new ((void *)nnodes[i]._M_valptr()) NMap::value_type(k, v);
+    npresent[i] = true;
+    return {NMap::iterator(&nnodes[i]), true};
+}
+extern "C" PTRef const & stub_n_at(NMap const *, TermName const & k) {
+    int i = nidx(k);
+    VASSERT(npresent[i], "nameToTerm.at() only on a known name (otherwise std::out_of_range)");
+    return nnodes[i]._M_valptr()->second;
+}
+extern "C" NMap::iterator stub_n_erase_it(NMap *, NMap::iterator it) {
+    for (int i = 0; i < NN; i++) if (it._M_cur == &nnodes[i]) {
+        VASSERT(npresent[i], "nameToTerm.erase(it) on a live element");
+        nnodes[i]._M_valptr()->~pair();
+        npresent[i] = false;
+    }
+    return NMap::iterator(nullptr);
+}
+
+extern "C" TMap::iterator stub_t_find(TMap *, PTRef const & k) { int i = tidx(k); return TMap::iterator(i >= 0 && tpresent[i] ? &tnodes[i] : nullptr); }
+extern "C" TMap::iterator stub_t_end(TMap *) { return TMap::iterator(nullptr); }
+extern "C" bool stub_t_contains(TMap const *, PTRef const & k) { int i = tidx(k); return i >= 0 && tpresent[i]; }
+extern "C" std::vector<TermName> & stub_t_index(TMap *, PTRef const & k) {
+    int i = tidx(k);
+    if (i < 0) { foreign_key = true; i = 0; }
+    if (!tpresent[i]) { ::new ((void *)tnodes[i]._M_valptr()) TMap::value_type(k, std::vector<TermName>{}); tpresent[i] = true; }
+    return tnodes[i]._M_valptr()->second;
+}
+extern "C" std::vector<TermName> const & stub_t_at(TMap const *, PTRef const & k) {
+    int i = tidx(k);
+    if (i < 0) { foreign_key = true; i = 0; }
+    VASSERT(tpresent[i], "termToNames.at() only on a known term (otherwise std::out_of_range)");
+    return tnodes[i]._M_valptr()->second;
+}
+extern "C" size_t stub_t_erase_key(TMap *, PTRef const & k) {
+    int i = tidx(k);
+    if (i < 0 || !tpresent[i]) return 0;
+    tnodes[i]._M_valptr()->~pair();
+    tpresent[i] = false;
+    return 1;
+}
+
+// ---------------------------------------------------------------- reference: a scoped list of (name, term)
 struct RefMap {
-    bool bound[NN]; int term[NN]; int level[NN]; int depth;
-    bool ever[NT];              // the term has had a name at some time
+    int n; int name[NN]; int term[NN];      // current names in the order they were given
+    int nlim; int lim[4];                   // scoped mode: list length at each open scope
+    int depth;                              // open scopes (both modes)
+    bool ever[NT];
 };
 static RefMap M;
-static bool popped_a_name, reinserted;
-static bool ref_term_named(int j) { for (int i = 0; i < NN; i++) if (M.bound[i] && M.term[i] == j) return true; return false; }
+static bool ref_has_name(int i) { for (int k = 0; k < NN; k++) if (k < M.n && M.name[k] == i) return true; return false; }
+static int ref_term_of(int i) { for (int k = 0; k < NN; k++) if (k < M.n && M.name[k] == i) return M.term[k]; return -1; }
+static bool ref_term_named(int j) { for (int k = 0; k < NN; k++) if (k < M.n && M.term[k] == j) return true; return false; }
 
-struct World {
-    TermNames tn;
-    std::string names[NN];
-    PTRef terms[NT];
-    World(SMTConfig const & c) : tn(c), names{std::string("a"), std::string("b")}, terms{PTRef{1}, PTRef{2}} {}
-};
+// raw, zero-initialised storage: empty vectors; the hash maps are never touched except through the models
+union RawTermNames { TermNames tn; RawTermNames() {} ~RawTermNames() {} };
+static RawTermNames raw;
+static bool popped_a_name, shrunk_a_name, reinserted, insert_refused;
 
-static void do_insert(World & w, unsigned i, unsigned j) {
-    bool was_popped = M.ever[j] && !ref_term_named((int)j);
-    bool r = w.tn.tryInsert(w.names[i], w.terms[j]);
-    VASSERT(r == !M.bound[i], "tryInsert succeeds exactly for a name that is not current");
-    if (r) { M.bound[i] = true; M.term[i] = (int)j; M.level[i] = M.depth; M.ever[j] = true; if (was_popped) reinserted = true; }
-}
-static void do_push(World & w) { w.tn.pushScope(); M.depth++; }
-static void do_pop(World & w) {
-    w.tn.popScope();
-    if (!global_mode) for (int k = 0; k < NN; k++) if (M.bound[k] && M.level[k] == M.depth) { M.bound[k] = false; popped_a_name = true; }
-    M.depth--;
-}
-static void query_name(World & w, unsigned i) {
-    VASSERT(w.tn.contains(w.names[i]) == M.bound[i], "contains(name) is true exactly for current names");
-    if (M.bound[i]) VASSERT(w.tn.termByName(w.names[i]).x == w.terms[M.term[i]].x, "termByName returns the term the current name was given to");
-}
-static void query_term(World & w, unsigned j) {
-    bool expect = ref_term_named((int)j);
+static void run_history() {
+    global_mode = nondet_bool();
+    TermNames & tn = raw.tn;
+    std::string const names[NN] = { std::string("a"), std::string("b") };
+    PTRef const terms[NT] = { PTRef{1}, PTRef{2} };
+    M.n = 0; M.nlim = 0; M.depth = 0; M.ever[0] = M.ever[1] = false;
+    unsigned nops = nondet_u8();
+    VASSUME(nops <= NOPS);
+    for (unsigned step = 0; step < NOPS; step++) if (step < nops) {
+        unsigned op = nondet_u8(), i = nondet_u8() & 1, j = nondet_u8() & 1;
+        VASSUME(op < 4);
+        if (op == 0) {
+            bool was_popped = M.ever[j] && !ref_term_named((int)j);
+            bool r = tn.tryInsert(names[i], terms[j]);
+            VASSERT(r == !ref_has_name((int)i), "tryInsert succeeds exactly for a name that is not current");
+            if (r) { M.name[M.n] = (int)i; M.term[M.n] = (int)j; M.n++; M.ever[j] = true; if (was_popped) reinserted = true; }
+            else insert_refused = true;
+        } else if (op == 1) {
+            VASSUME(M.depth < 3);
+            tn.pushScope();
+            if (!global_mode) { M.lim[M.nlim] = M.n; M.nlim++; }
+            M.depth++;
+        } else if (op == 2) {
+            VASSUME(M.depth > 0);               // MainSolver::pop only pops an existing frame
+            tn.popScope();
+            if (!global_mode) { M.nlim--; if (M.lim[M.nlim] < M.n) popped_a_name = true; M.n = M.lim[M.nlim]; }
+            M.depth--;
+        } else {
+            // rollback of a rejected command: forget the names given since there were k of them (same scope)
+            unsigned k = nondet_u8();
+            VASSUME(k <= (unsigned)M.n && (M.nlim == 0 || k >= (unsigned)M.lim[M.nlim - 1]));
+            tn.shrinkTo(k);
+            if (k < (unsigned)M.n) shrunk_a_name = true;
+            M.n = (int)k;
+        }
+    }
+    VASSERT(!foreign_key, "the maps are only asked about the names and terms of the harness");
+    // every query, against the reference
+    for (int i = 0; i < NN; i++) {
+        bool cur = ref_has_name(i);
+        VASSERT(tn.contains(names[i]) == cur, "contains(name) is true exactly for current names");
+        if (cur) VASSERT(tn.termByName(names[i]).x == terms[ref_term_of(i)].x, "termByName returns the term the current name was given to");
+        auto t = tn.tryGetTermByName(names[i]);
+        VASSERT(t.has_value() == cur, "tryGetTermByName finds exactly the current names");
+    }
+    for (int j = 0; j < NT; j++) {
+        bool expect = ref_term_named(j);
 #ifdef KF_C21_EMPTY_VECTOR
-    // known finding: eraseTermName leaves an empty vector in termToNames, so a term whose names were all popped
-    // still counts as named (and tryGetNameForTerm then reads the front of an empty vector); such queries are excluded
-    if (!expect && M.ever[j]) return;
+        if (!expect && M.ever[j]) continue;     // (repaired) a term whose names were all popped stayed "named"
 #endif
-    VASSERT(w.tn.contains(w.terms[j]) == expect, "contains(term) is true exactly for terms with a current name");
-    if (!expect && M.ever[j]) { VWITNESS("query-about-a-term-whose-names-were-popped"); }
-    TermName const * nm = w.tn.tryGetNameForTerm(w.terms[j]);
-    VASSERT((nm != nullptr) == expect, "tryGetNameForTerm returns a name exactly for terms with a current name");
-    if (nm != nullptr && expect) {
-        bool ok = false;
-        for (int k = 0; k < NN; k++) if (M.bound[k] && M.term[k] == (int)j && *nm == w.names[k]) ok = true;
-        VASSERT(ok, "the name returned for a term is one of its current names");
+        VASSERT(tn.contains(terms[j]) == expect, "contains(term) is true exactly for terms with a current name");
+        if (!expect && M.ever[j]) { VWITNESS("query-about-a-term-whose-names-are-all-gone"); }
+        TermName const * nm = tn.tryGetNameForTerm(terms[j]);
+        VASSERT((nm != nullptr) == expect, "tryGetNameForTerm returns a name exactly for terms with a current name");
+        if (nm != nullptr && expect) {
+            char c = nm->data()[0];
+            bool ok = false;
+            for (int k = 0; k < NN; k++) if (k < M.n && M.term[k] == j && c == 'a' + M.name[k]) ok = true;
+            VASSERT(ok, "the name returned for a term is one of its current names");
+        }
+    }
+    VASSERT(tn.size() == (size_t)M.n, "the scoped list holds exactly the current names");
+    for (int k = 0; k < NN; k++) if (k < M.n && (size_t)k < tn.size()) {
+        auto const & p = tn.scopedNamesAndTerms.data()[k];
+        VASSERT(p.first.data()[0] == 'a' + M.name[k] && p.second.x == terms[M.term[k]].x, "iteration yields the current (name, term) pairs in the order they were given");
     }
 }
 
-// a concrete prefix (builds a representative reachable state), then NSYM arbitrary operations, then every query
-//   prefix alphabet: P push, O pop, 1 = insert(a,t1), 2 = insert(a,t2), 3 = insert(b,t1), 4 = insert(b,t2)
-#ifndef NSYM
-#define NSYM 1
-#endif
-static void reset_ref(bool global) {
-    global_mode = global;
-    for (int i = 0; i < NN; i++) M.bound[i] = false;
-    for (int j = 0; j < NT; j++) M.ever[j] = false;
-    M.depth = 0; popped_a_name = reinserted = false;
+#ifndef WITH_C06
+extern "C" void h_termnames_history() {
+    run_history();
+    VWITNESS("history-done");
+    if (popped_a_name && M.n == 1) { VWITNESS("a-name-was-popped-another-survives"); }
+    if (shrunk_a_name) { VWITNESS("a-name-was-rolled-back"); }
+    if (reinserted) { VWITNESS("a-popped-term-was-named-again"); }
+    if (global_mode && M.n == 2 && M.depth == 0) { VWITNESS("global-mode-names-survive-pop"); }
+    if (insert_refused) { VWITNESS("duplicate-name-refused"); }
 }
-static void finish(World & w) {
-    for (int step = 0; step < NSYM; step++) {
-        unsigned op = nondet_u8();
-        VASSUME(op < 6);
-        if (op == 0) do_insert(w, 0, 0);
-        else if (op == 1) do_insert(w, 0, 1);
-        else if (op == 2) do_insert(w, 1, 0);
-        else if (op == 3) do_insert(w, 1, 1);
-        else if (op == 4) { VASSUME(M.depth < 3); do_push(w); }
-        else { VASSUME(M.depth > 0); do_pop(w); }       // MainSolver::pop only pops an existing frame
-    }
-    for (unsigned i = 0; i < NN; i++) query_name(w, i);
-    for (unsigned j = 0; j < NT; j++) query_term(w, j);
-    unsigned cnt = 0;
-    for (int k = 0; k < NN; k++) if (M.bound[k]) cnt++;
-    VASSERT(w.tn.size() == cnt, "the scoped list holds exactly the current names");
-    VWITNESS("scenario-done");
-    if (popped_a_name) { VWITNESS("a-name-was-popped"); }
-}
-// prefix "", scoped mode
-extern "C" void h_tn_empty() { unsigned char fc[8]; World w(*reinterpret_cast<SMTConfig const *>(fc)); reset_ref(false);  finish(w); }
-// prefix "1", scoped mode
-extern "C" void h_tn_one() { unsigned char fc[8]; World w(*reinterpret_cast<SMTConfig const *>(fc)); reset_ref(false); do_insert(w, 0, 0); finish(w); }
-// prefix "13", scoped mode
-extern "C" void h_tn_two_same_term() { unsigned char fc[8]; World w(*reinterpret_cast<SMTConfig const *>(fc)); reset_ref(false); do_insert(w, 0, 0); do_insert(w, 1, 0); finish(w); }
-// prefix "14", scoped mode
-extern "C" void h_tn_two_terms() { unsigned char fc[8]; World w(*reinterpret_cast<SMTConfig const *>(fc)); reset_ref(false); do_insert(w, 0, 0); do_insert(w, 1, 1); finish(w); }
-// prefix "P1", scoped mode
-extern "C" void h_tn_pushed_one() { unsigned char fc[8]; World w(*reinterpret_cast<SMTConfig const *>(fc)); reset_ref(false); do_push(w); do_insert(w, 0, 0); finish(w); }
-// prefix "1P3", scoped mode
-extern "C" void h_tn_outer_inner() { unsigned char fc[8]; World w(*reinterpret_cast<SMTConfig const *>(fc)); reset_ref(false); do_insert(w, 0, 0); do_push(w); do_insert(w, 1, 0); finish(w); }
-// prefix "1P4", scoped mode
-extern "C" void h_tn_outer_inner2() { unsigned char fc[8]; World w(*reinterpret_cast<SMTConfig const *>(fc)); reset_ref(false); do_insert(w, 0, 0); do_push(w); do_insert(w, 1, 1); finish(w); }
-// prefix "P1O", scoped mode
-extern "C" void h_tn_popped() { unsigned char fc[8]; World w(*reinterpret_cast<SMTConfig const *>(fc)); reset_ref(false); do_push(w); do_insert(w, 0, 0); do_pop(w); finish(w); }
-// prefix "1P3O", scoped mode
-extern "C" void h_tn_popped_inner() { unsigned char fc[8]; World w(*reinterpret_cast<SMTConfig const *>(fc)); reset_ref(false); do_insert(w, 0, 0); do_push(w); do_insert(w, 1, 0); do_pop(w); finish(w); }
-// prefix "P1P4", scoped mode
-extern "C" void h_tn_two_levels() { unsigned char fc[8]; World w(*reinterpret_cast<SMTConfig const *>(fc)); reset_ref(false); do_push(w); do_insert(w, 0, 0); do_push(w); do_insert(w, 1, 1); finish(w); }
-// prefix "P1", global mode
-extern "C" void h_tn_g_pushed_one() { unsigned char fc[8]; World w(*reinterpret_cast<SMTConfig const *>(fc)); reset_ref(true); do_push(w); do_insert(w, 0, 0); finish(w); }
-// prefix "P1O", global mode
-extern "C" void h_tn_g_popped() { unsigned char fc[8]; World w(*reinterpret_cast<SMTConfig const *>(fc)); reset_ref(true); do_push(w); do_insert(w, 0, 0); do_pop(w); finish(w); }
-// prefix "1P4", global mode
-extern "C" void h_tn_g_two() { unsigned char fc[8]; World w(*reinterpret_cast<SMTConfig const *>(fc)); reset_ref(true); do_insert(w, 0, 0); do_push(w); do_insert(w, 1, 1); finish(w); }
+#else
+// ---------------------------------------------------------------- C06: UnsatCoreBuilder::partitionNamedTerms on top of it
+static bool minimal_cores;
+extern "C" bool stub_minimal_cores(SMTConfig const *) { return minimal_cores; }
+extern "C" TermNames const & stub_get_term_names(MainSolver const *) { return raw.tn; }
+union RawBuilder { UnsatCoreBuilder b; RawBuilder() {} ~RawBuilder() {} };
+static RawBuilder rawb;
 
-// the shortest history behind DESIGN 7-F1, straight-line: a name given inside a scope that is then popped
-extern "C" void h_popped_name_is_gone() {
-    global_mode = false;
-    unsigned char fc[8];
-    TermNames tn(*reinterpret_cast<SMTConfig const *>(fc));
-    std::string const a("a");
-    PTRef const t{1};
-    tn.pushScope();
-    bool r = tn.tryInsert(a, t);
-    VASSERT(r, "a fresh name can be given");
-    VASSERT(tn.contains(t), "the term is named inside the scope");
-    tn.popScope();
-    VASSERT(!tn.contains(a), "after the pop the name is unknown");
-    VASSERT(tn.size() == 0, "after the pop the scoped list is empty");
-#ifndef KF_C21_EMPTY_VECTOR
-    // known finding (guarded): eraseTermName leaves an empty vector in termToNames
-    VASSERT(!tn.contains(t), "after the pop the term has no name any more");
-#endif
-    bool r2 = tn.tryInsert(a, t);
-    VASSERT(r2, "a popped name can be given again");
-    VASSERT(tn.contains(t) && tn.contains(a), "and is then known again");
-    VWITNESS("popped-and-renamed");
+extern "C" void h_partition_named_terms() {
+    run_history();
+    UnsatCoreBuilder & b = rawb.b;      // zero storage: empty vec<PTRef>s; config/solver references only reach the stubs
+    minimal_cores = nondet_bool();
+    // the terms the core clauses were mapped to: any non-empty duplicate-free list over term 1, term 2 and an unnamed term 3
+    unsigned mask = nondet_u8() & 7;
+    VASSUME(mask != 0);
+    bool in_all[4] = { false, false, false, false };
+    for (unsigned t = 1; t <= 3; t++) if (mask & (1u << (t - 1))) { b.allTerms.push(PTRef{t}); in_all[t] = true; }
+    b.partitionNamedTerms();
+    bool seen_named[4] = { false, false, false, false }, seen_hidden[4] = { false, false, false, false };
+    for (int k = 0; k < b.namedTerms.size(); k++) {
+        uint32_t t = b.namedTerms[k].x;
+        VASSERT(t >= 1 && t <= 3 && in_all[t], "a term reported as named is one of the mapped terms");
+        if (t >= 1 && t <= 3) { VASSERT(!seen_named[t], "no term is reported twice"); seen_named[t] = true; }
+        VASSERT(t <= 2 && ref_term_named((int)t - 1), "every term reported as named has a CURRENT name");
+    }
+    for (int k = 0; k < b.hiddenTerms.size(); k++) {
+        uint32_t t = b.hiddenTerms[k].x;
+        VASSERT(t >= 1 && t <= 3 && in_all[t], "a hidden term is one of the mapped terms");
+        if (t >= 1 && t <= 3) { VASSERT(!seen_hidden[t] && !seen_named[t], "hidden and named terms are disjoint and duplicate-free"); seen_hidden[t] = true; }
+    }
+    for (uint32_t t = 1; t <= 3; t++) if (in_all[t]) {
+        bool named_now = t <= 2 && ref_term_named((int)t - 1);
+        VASSERT(seen_named[t] == named_now, "a mapped term with a current name is reported as named");
+        if (!minimal_cores) VASSERT(seen_hidden[t] == !named_now, "hidden + named = mapped terms (full partition unless minimal cores are requested)");
+        else VASSERT(!seen_hidden[t], "with minimal cores the hidden terms are left to minimize()");
+    }
+    VWITNESS("partition-done");
+    if (b.namedTerms.size() >= 1 && b.hiddenTerms.size() >= 1) { VWITNESS("named-and-hidden"); }
+    if (in_all[1] && M.ever[0] && !ref_term_named(0)) { VWITNESS("mapped-term-whose-names-are-all-gone"); }
 }
+#endif
